@@ -68,7 +68,7 @@ func VH_C17_commit_enabled() {
 	vReach("end")
 }
 
-//verif:check C06,C11,C07 stubs=env,valuefile,abslog reach=committed,notcommitted,end desc="D3: appending a configuration that changes the voter count (promotion, demotion, incl. the leader itself; 1->2, 2->1, 2->3 voters): whatever the leader commits in that same step is held by a majority of the voters of the configuration now in force" bounds="n=2..3 nodes, symbolic voter flags, one voter flag flipped, log of 2 entries"
+//verif:check C06,C11,C07 stubs=env,valuefile,abslog reach=committed,notcommitted,removed,end desc="D3: appending a configuration that changes the voter count (promotion, demotion or removal of a node, incl. the leader itself; 1->2, 2->1, 2->3 voters): whatever the leader commits in that same step is held by a majority of the voters of the configuration now in force" bounds="n=2..3 nodes, symbolic voter flags, one voter flag flipped or one node removed, log of 2 entries"
 func VH_C06_config_commit() {
 	n := 2 + vChoice(2)
 	r, l, a := vMkLeader(n, 2, true)
@@ -79,9 +79,14 @@ func VH_C06_config_commit() {
 	c0 := r.commitIndex
 	flip := uint64(1 + vChoice(n))
 	nc := cfg.clone()
-	nd := nc.Nodes[flip]
-	nd.Voter = !nd.Voter
-	nc.Nodes[flip] = nd
+	if vChoice(2) == 0 {
+		nd := nc.Nodes[flip]
+		nd.Voter = !nd.Voter
+		nc.Nodes[flip] = nd
+	} else {
+		delete(nc.Nodes, flip) // removal, incl. of the leader itself
+		vReach("removed")
+	}
 	vAssume(nc.numVoters() >= 1)
 	l.storeEntry(&newEntry{entry: nc.encode(), task: newTask()})
 	vAssert(r.configs.Latest.Index == r.lastLogIndex, "config-adopted-on-append")
